@@ -125,7 +125,9 @@ def obligations(tier, rng):
              ('a = once[0,1](x); b = (a) or (y); c = historically(b); out = b', ('or', ('once_t', X, 0, 1), Y)),
              ('a = prev(x); out = a; c = (a) and (y)', ('and', ('prev', X), Y)),
              ('a = (x) >= (2.0); out = (a) and (a)', ('and', GX2, GX2)),
-             ('a = (y) >= (0.0); b = eventually[0,1](a); res = (a) until (b); out = a', GY0)]
+             ('a = (y) >= (0.0); b = eventually[0,1](a); res = (a) until (b); out = a', GY0),
+             ('lim = 5.0; out = ((x) <= (lim)) and ((x) >= (-(lim)))', ('and', ('leq', X, ('const', 5.0)), ('geq', X, ('neg', ('const', 5.0))))),
+             ('lim = 2.0; low = -(lim); out = ((y) >= (low)) and (((x) - (-(lim))) >= (lim))', ('and', ('geq', Y, ('neg', ('const', 2.0))), ('geq', ('sub', X, ('neg', ('const', 2.0))), ('const', 2.0))))]
     for txt, fm in multi:
         for N in (1, 4):
             out.append(ob('C01', 'offline', 'multi/%s/N=%d' % (txt, N), f=fm, N=N, kind='offline' if N == 1 else 'combined', ext=False, times='fixed', full_text=txt, extra_vars=['x', 'y']))
